@@ -440,19 +440,6 @@ func (f *fidRef) safelyRead(fn func() error) (err error) {
 
 // safelyWrite executes the given operation with the local path node locked in
 // a writable fashion. This implies some paths may change.
-// safelyReadParent is safelyRead on the parent of f (on f itself for a root).
-//
-// The parent is looked up only once the rename lock is held: that lock is what
-// keeps a concurrent rename from changing it.
-func (f *fidRef) safelyReadParent(fn func() error) (err error) {
-	f.server.renameMu.RLock()
-	defer f.server.renameMu.RUnlock()
-	parent := f.maybeParent()
-	parent.pathNode.opMu.RLock()
-	defer parent.pathNode.opMu.RUnlock()
-	return fn()
-}
-
 func (f *fidRef) safelyWrite(fn func() error) (err error) {
 	f.server.renameMu.RLock()
 	defer f.server.renameMu.RUnlock()
